@@ -665,16 +665,14 @@ func isNewMaster(cand, exist *spb.Uint128) (bool, bool, error) {
 	if exist == nil {
 		return true, false, nil
 	}
-	if cand.High > exist.High {
+	// Election IDs are compared as unsigned 128-bit integers, the high 64 bits are
+	// the most significant.
+	switch uint128.New(cand.Low, cand.High).Cmp(uint128.New(exist.Low, exist.High)) {
+	case 1:
 		return true, false, nil
-	}
-	if cand.Low > exist.Low {
-		return true, false, nil
-	}
-
-	// Per comments in gribi.proto - if the two values are equal, then we accept the new
-	// candidate as the master, this allows for reconnections.
-	if cand.High == exist.High && cand.Low == exist.Low {
+	case 0:
+		// Per comments in gribi.proto - if the two values are equal, then we accept the new
+		// candidate as the master, this allows for reconnections.
 		return true, true, nil
 	}
 	// TODO(robjs): currently this is not specified in the spec, since this is the
